@@ -463,7 +463,8 @@ def c066(ctx):
         ctx.floor(R, "MemTable::load value hand-out", len(vals), 1)
         for p_ in vals:
             valid = K.guarded_by_call(f, p_, r"SkipListIterator.*::is_valid$", label="sw:1")
-            eq = [1 for bb, lab, srcs in K.guards(f, p_) if lab == "sw:1" and any(s_["k"] == "call" and re.search(r"::eq$", s_["callee"]) for s_ in srcs)]
+            eq = [1 for bb, lab, srcs in K.guards(f, p_) if (lab == "sw:1" and any(s_["k"] == "call" and re.search(r"::eq$", s_["callee"]) for s_ in srcs)) or
+                  (lab == "sw:0" and any(s_["k"] == "call" and re.search(r"::ne$", s_["callee"]) for s_ in srcs))]     # `a == b` taken, or `a != b` not taken
             ctx.check(R, f, "hit-test", valid is not None and bool(eq), "a value is handed out only when the iterator is valid and its key equals the requested key",
                       "MemTable::load hands out the value of whatever entry the seek landed on", pt=p_)
         tw = [w for b in f.blocks for w in [(b.idx, i) for i, st in enumerate(b.st) if st["s"] == "=" and st["lhs"]["l"] == inv.get(4) and "*" in st["lhs"]["p"]]]
